@@ -82,7 +82,7 @@ pub const STATEMENT_KINDS: [&str; 12] = [
     "Include", "Assert", "Class", "Def", "Defm", "Defset", "Defvar", "Dump", "Foreach", "If", "Let", "MultiClass",
 ];
 
-pub const ID_POOL: [&str; 22] = ["A", "B", "C", "Base", "Inst", "x", "y", "z", "val", "f1", "f2", "Rc", "i", "NAME", "_x", "x_1", "4x", "classic", "inty", "Def", "defx", "in_"];
+pub const ID_POOL: [&str; 25] = ["A", "B", "C", "Base", "Inst", "x", "y", "z", "val", "f1", "f2", "Rc", "i", "NAME", "_x", "x_1", "4x", "classic", "inty", "Def", "defx", "in_", "else2", "endif_", "define9"];
 pub const VAR_POOL: [&str; 3] = ["$a", "$b", "$src"];
 pub const STR_POOL: [&str; 10] = ["\"\"", "\"s\"", "\"a b\"", "\"e\\\"q\"", "\"t\\n\"", "\"héé\"", "\"C:\\\\\"", "\"\\\\\\\\\"", "\"q\\\\\\\"x\"", "\"// no /* comment [{ }]\""];
 pub const INT_POOL: [&str; 12] = ["0", "1", "7", "42", "-3", "+5", "0x1F", "0b101", "9223372036854775807", "-9223372036854775808", "007", "0xabcDEF"];
@@ -752,6 +752,12 @@ pub enum Trivia {
 
 fn can_be_tight(a: &str, b: &str) -> bool {
     const SAFE: [&str; 11] = ["(", ")", "<", ">", ":", ";", ",", "=", "?", "]", "}"];
+    // the paste operator is usually written tight: `NAME#"_x"`, `a#b`, also `a#else2` (one identifier,
+    // not a directive: a directive word ends at whitespace or a comment)
+    if a == "#" {
+        let bf = b.chars().next().unwrap_or(' ');
+        return (bf.is_ascii_alphabetic() || bf == '_' || bf == '"') && !["ifdef", "ifndef", "else", "endif", "define"].contains(&b);
+    }
     let a_safe = SAFE.contains(&a);
     let b_safe = SAFE.contains(&b) || b == "[" || b == "{";
     if !(a_safe || b_safe) {
